@@ -13,6 +13,8 @@ CHECKS = {
  'C17': ('E2 unit: one inductive step of Slot::fresh/numeric/named/Display from MIR from an arbitrary slot-table state under the quantified invariant; dev and release (wrapping) variants', 'model_checking', '§4 C17'),
  'C18': ('E2: Pattern::parse recursive descent + derived from_syntax from MIR on every token sequence up to the bound (symbolic kinds / identifiers / slots) and tokenize+parse on every string of symbolic Unicode scalar values up to the bound: no panic, Ok values well formed; round-trip clause outside', 'model_checking', '§4 C18'),
  'C19': ('E2 unit: every public SlotMap method from MIR on maps of concrete size with symbolic slots, reference finite map as z3 ite-terms, queries for a fresh symbolic key; maps of 11-40 entries for one symbolic operation', 'model_checking', '§4 C19'),
+ 'C10': ('E2 unit: Group<SlotMap> from MIR with symbolic generator images, every permutation tuple a path admits compared with a brute-force closure (count, membership, enumeration, orbits, generators, add_set); e-graph level: symmetric-leaf templates', 'model_checking', '§4 C10'),
+ 'C13': ('E2 unit: one canonicalisation step (find_applied_id with recursive path compression) from arbitrary union-find states of five chain shapes, oracle = pointwise composition; history level: monotonicity of eq / slots / progress over the template histories', 'model_checking', '§4 C13'),
  'C12': ('E2 templates and their reorderings (insertion order, union order, orientation) agree per coincidence pattern', 'model_checking', '§4 C12'),
 }
 NA = {
@@ -35,7 +37,7 @@ def main():
     m = {'version': 1,
          'setup_cmd': 'bin/setup',
          'hooks': {'guard': 'slotted_egraphs_verif', 'enable': "RUSTFLAGS='--cfg slotted_egraphs_verif' (cfg(kani) also enables)", 'baseline_off_cmd': 'cd /repo && cargo test --workspace --no-fail-fast --offline',
-                   'source_commits': [], 'add_only': True},
+                   'source_commits': ['36fd914'], 'add_only': True},
          'engines': [{'name': 'E2-mirsmt', 'path': 'mirsmt/', 'serves_properties': sorted(CHECKS), 'kind_free_text': TN}],
          'checks': checks, 'not_applicable': na,
          'notes': 'exit 0 = held on everything explored, 1 = VIOLATION (natively reproduced), 2 = inconclusive (unsupported construct, budget, model mismatch). known_findings.txt lists genuine unrepaired defects.'}
